@@ -236,6 +236,7 @@ func (w *World) abort(t *simcore.Task, wt *WTxn) {
 		w.tables[ti].M.Writers--
 	}
 	wt.finished = true
+	w.abortedTxn[wt.id] = true
 	tx := tctx(t)
 	// reference answers from the committed state right before the Abort (C02: abort leaves no trace)
 	var ref []answer
